@@ -2105,7 +2105,11 @@ impl<W: std::io::Write + std::io::Seek> Encoder<W> {
             // of the stream
             let writer = self.writer.stream();
             writer.seek(std::io::SeekFrom::Start(self.start))?;
-            write_blocks(writer.by_ref(), self.blocks.blocks())
+            write_blocks(writer.by_ref(), self.blocks.blocks())?;
+
+            // the writer may be a buffer we own (as with create()),
+            // so make sure the final blocks actually reach it
+            writer.flush().map_err(Error::Io)
         } else {
             Ok(())
         }
